@@ -201,6 +201,22 @@ class RowMin:
     return state
 
 
+class RowCount:
+  """A user aggregate whose state is a plain int: the number of rows (equal shards give equal, interned, states)."""
+
+  def create_state(self):
+    return 0
+
+  def update_state(self, state, val):
+    return state + 1
+
+  def merge_states(self, states):
+    return sum(states)
+
+  def get_result(self, state):
+    return state
+
+
 class Counting:
   """Stateful callable for lazy-expression tests: counts constructions and calls."""
   constructed = 0
